@@ -118,7 +118,16 @@ def rule_source(chk, prog):
                                                         okcnt = True
                             if not okcnt:
                                 why = "the number of elements sorted is not the number of names collected"
-            res[f.unit.src] = (why is None, f, c)
+            enable = None
+            if why is not None:
+                from .c17 import guards_with_mask, field_of
+                for (x, m, st) in guards_with_mask(f, c.bb):
+                    fl = field_of(x)
+                    if st == "set" and fl:
+                        enable = (fl, m)
+            prev = res.get(f.unit.src)
+            sites = (prev[3] if prev else []) + [(why is None, f, c, enable)]
+            res[f.unit.src] = (all(s_[0] for s_ in sites), f, c, sites)
             if why is None:
                 chk.ok("A3-source", inst, c, "host enumeration order is erased: only copies of the names leave the loop, into an array that is "
                        "sorted with %s (total order proven by K14) before the function can return success" % good[0][1].name)
@@ -204,9 +213,74 @@ def _same_loc(prog, f, p, loc):
     return False
 
 
+def _excluded(prog, f, ctor_call, filter_call, sources):
+    """the host source has an unsorted mode behind a flag bit: True if that bit can only be set where the order-sensitive
+    stage is not created; otherwise a text saying why not"""
+    from .c17 import guards_with_mask, field_of, mask_test, unext
+    from ..errflow import ret_sources
+    sites = [s_ for st in sources.values() for s_ in st[3] if not s_[0]]
+    if any(s_[3] is None for s_ in sites):
+        return None                       # an unconditional unordered site
+    bits = 0
+    for s_ in sites:
+        bits |= s_[3][1]
+    # the constructor's flag argument (the word the enabling bit is taken from)
+    arg = None
+    for a in ctor_call.ops:
+        if getattr(a, "ty", "") in ("i32", "i64") or (a.is_const and a.is_int):
+            arg = a
+    if arg is None:
+        return "the flag word given to the host iterator could not be identified"
+    arg = unext(arg)
+    if arg.is_const and arg.is_int:
+        return True if (arg.sval & bits) == 0 else "the unsorted mode (bit 0x%x) is always requested" % bits
+    # when can the bit be set?  helper returning constants under mask tests of a configuration word
+    conds = []
+    if arg.is_inst and arg.op == "call":
+        h = prog.fn(arg.callee, f.unit) if arg.callee else None
+        if h is None or isinstance(h, ExternFn) or h.decl:
+            return "the flag word comes from %s, which cannot be evaluated" % arg.callee
+        h.build()
+        for (v, b) in ret_sources(h):
+            v = unext(v)
+            if not (v.is_const and v.is_int):
+                return "the flag helper %s returns a non-constant" % h.name
+            if v.sval & bits:
+                g = [(field_of(x), m) for (x, m, st) in guards_with_mask(h, b) if st == "set" and field_of(x)]
+                t = b.term
+                if t.op == "br" and len(t.x["succ"]) == 2:
+                    mt = mask_test(t.ops[0])
+                    if mt and field_of(mt[0]):
+                        for k, s_ in enumerate(t.x["succ"]):
+                            if any(i.op in ("phi", "ret") for i in s_.insts) and ((k == 0) == mt[2]):
+                                g.append((field_of(mt[0]), mt[1]))
+                if not g:
+                    return "%s can return the unsorted bit unconditionally" % h.name
+                conds.append(g[-1])
+    else:
+        return "the flag word is not a constant or a helper's result"
+    if not conds:
+        return True
+    # the filter is created only while a mask of the same word is clear
+    H = 0
+    word = conds[0][0]
+    for (x, m, st) in guards_with_mask(f, filter_call.bb):
+        if st == "clear" and field_of(x) and field_of(x)[1] == word[1]:
+            H |= m
+    M = 0
+    for (w, m) in conds:
+        if w[1] != word[1]:
+            return "the unsorted bit depends on several configuration words"
+        M |= m
+    if M & ~H == 0:
+        return True
+    return "the unsorted mode is requested when %s & 0x%x is set, but the filter is only left out when %s & 0x%x is set: bit(s) 0x%x " \
+           "enable unsorted enumeration underneath the filter" % (word[1], M, word[1], H, M & ~H)
+
+
 def rule_pipeline(chk, prog, sources):
     """A3-pipeline: an order-sensitive stage never sits over an unordered host source"""
-    unordered_host = any(not ok for (ok, _, _) in sources.values())
+    unordered_host = any(not st[0] for st in sources.values())
     n = 0
     for f in prog.functions():
         if "/test/" in f.unit.src or f.decl:
@@ -245,7 +319,11 @@ def rule_pipeline(chk, prog, sources):
                         pass
                     elif k2 == "host":
                         if unordered_host:
-                            verdict = ("bad", None)
+                            excl = _excluded(prog, f, p, c, sources)
+                            if excl is True:
+                                chain[-1] += "[unsorted mode excluded here]"
+                            else:
+                                verdict = ("bad", excl)
             inst = "%s:%s" % (f.name, " <- ".join(chain))
             if verdict is None:
                 chk.ok("A3-pipeline", inst, c, "every source below the order-sensitive stage yields a defined order")
@@ -253,7 +331,8 @@ def rule_pipeline(chk, prog, sources):
                 chk.note("A3-pipeline %s: not decided (%s)" % (inst, verdict[1]))
                 chk.ok("A3-pipeline", inst, c, "not decided: " + verdict[1])
             else:
-                chk.violation("A3-pipeline", inst, c, "the hard link filter (first path seen for a (device, inode) pair becomes the file, later "
+                extra = (" (" + verdict[1] + ")") if verdict[1] else ""
+                chk.violation("A3-pipeline", inst, c, extra.strip() + " the hard link filter (first path seen for a (device, inode) pair becomes the file, later "
                               "ones links) is stacked over the host's directory enumeration with no ordering stage in between: which name "
                               "of a multiply linked file becomes the inode -- and so inode numbers, directory contents and every byte -- "
                               "depends on readdir order")
@@ -377,7 +456,7 @@ def run(chk):
     if ns == 0:
         chk.broke("no host directory enumeration found in gensquashfs (anchor lib/sqfs/src/io/dir_unix.c vanished?)")
     rule_pipeline(chk, prog, sources)
-    if any(not ok for (ok, _, _) in sources.values()):
+    if any(not st[0] for st in sources.values()):
         rule_sorted_tree(chk, prog)
         rule_exact_lookup(chk, prog)
         for (t, li, ri, eq) in registered_comparators(prog):
@@ -402,7 +481,7 @@ def controls(chk):
     for nm in ("ctl_cmp_good", "ctl_cmp_asym", "ctl_cmp_ignores", "ctl_cmp_trunc"):
         check_comparator(sub, prog, fns[nm], 1, 2, "K14-cmp")
     got = {(o["rule"], o["function"]) for o in sub.obl if o["verdict"] == "VIOLATED"}
-    chk.control("A3-source", any(not ok for (ok, _, _) in src.values()), "readdir result kept and handed on: classified unordered")
+    chk.control("A3-source", any(not st[0] for st in src.values()), "readdir result kept and handed on: classified unordered")
     chk.control("A3-pipeline", ("A3-pipeline", "ctl_pipeline") in got, "hard link filter over native over nothing that sorts")
     chk.control("K14-cmp/R2", ("K14-cmp", "ctl_cmp_asym") in got, "asymmetric tie-break")
     chk.control("K14-cmp/R3", ("K14-cmp", "ctl_cmp_ignores") in got, "key part read but ignored")
